@@ -1467,4 +1467,78 @@ example : parse true [0x16, 0xfe, 0xfc, 0, 0, 0, 0, 0, 0, 0, 0, 0, 1] = .invalid
 /-- incomplete is NOT stable (so the guard of `prefix_stable` is needed) -/
 example : parse false [0x16, 3, 1, 0] = .incomplete ∧ parse false ([0x16, 3, 1, 0] ++ [0]) = .invalid := by decide
 
+
+/-! ## round-6 cross-audit: further non-vacuity witnesses (instances of theorems that had none) -/
+
+-- `prefix_stable_invalid`: a rejected input stays rejected
+example : parse false ([0x17, 3, 1, 0, 1, 0] ++ [1, 2, 3]) = .invalid := prefix_stable_invalid false _ _ (by decide)
+
+-- `record_split_invariant`: the real hello in three records (two record versions) vs. in one record
+example : parse false (records [([0x16, 3, 1], (exHello.message false [0, 0]).take 1),
+              ([0x16, 3, 3], ((exHello.message false [0, 0]).drop 1).take 3),
+              ([0x16, 3, 3], (exHello.message false [0, 0]).drop 4)]) = parse false (records [([0x16, 3, 3], exHello.message false [0, 0])]) := by
+  apply record_split_invariant
+  · intro ch hm
+    simp only [List.mem_cons, List.mem_nil_iff, or_false] at hm
+    rcases hm with rfl | rfl | rfl <;> exact ⟨by decide, by decide, by decide, by decide⟩
+  · intro ch hm
+    simp only [List.mem_cons, List.mem_nil_iff, or_false] at hm
+    subst hm; exact ⟨by decide, by decide, by decide, by decide⟩
+  · decide +kernel
+
+-- `built_any_split`: that wire image followed by a ChangeCipherSpec record, delivered in two TCP segments cut inside a record header
+example : feedAll false []
+    [ (records [([0x16, 3, 1], (exHello.message false [0, 0]).take 1),
+              ([0x16, 3, 3], ((exHello.message false [0, 0]).drop 1).take 3),
+              ([0x16, 3, 3], (exHello.message false [0, 0]).drop 4)]).take 7,
+      (records [([0x16, 3, 1], (exHello.message false [0, 0]).take 1),
+              ([0x16, 3, 3], ((exHello.message false [0, 0]).drop 1).take 3),
+              ([0x16, 3, 3], (exHello.message false [0, 0]).drop 4)]).drop 7 ++ [0x14, 3, 3, 0, 1, 1] ] = .ok exHello.view := by
+  apply built_any_split false exHello [0, 0] [] [0x14, 3, 3, 0, 1, 1] [([0x16, 3, 1], (exHello.message false [0, 0]).take 1),
+              ([0x16, 3, 3], ((exHello.message false [0, 0]).drop 1).take 3),
+              ([0x16, 3, 3], (exHello.message false [0, 0]).drop 4)] _ (exHello_wf false) rfl
+  · intro ch hm
+    simp only [List.mem_cons, List.mem_nil_iff, or_false] at hm
+    rcases hm with rfl | rfl | rfl <;> exact ⟨by decide, by decide, by decide, by decide⟩
+  · decide +kernel
+  · rw [List.flatten_cons, List.flatten_cons, List.flatten_nil, List.append_nil, ← List.append_assoc, List.take_append_drop]
+
+-- `parse_records_payload` / `payload_only` with a result that is a hello (the example above ends in `.invalid`)
+example : parse false (records [([0x16, 3, 3], exHello.message false [0, 0])]) = helloOf false (contents [([0x16, 3, 3], exHello.message false [0, 0])]) := by
+  apply parse_records_payload
+  intro ch hm
+  simp only [List.mem_cons, List.mem_nil_iff, or_false] at hm
+  subst hm; exact ⟨by decide, by decide, by decide, by decide⟩
+example : helloOfMsg false (exHello.message false [0, 0]) = .ok exHello.view := by decide +kernel
+
+-- `payload_incomplete`: the payload announces 5 body bytes and carries 1
+example : feedAll false [] [[0x16, 3, 1, 0, 5], [1, 0, 0, 5, 0]] = .incomplete :=
+  payload_incomplete false [([0x16, 3, 1], [1, 0, 0, 5, 0])] _
+    (by intro ch hm
+        simp only [List.mem_cons, List.mem_nil_iff, or_false] at hm
+        subst hm; exact ⟨by decide, by decide, by decide, by decide⟩)
+    (by decide) (by decide)
+
+-- accessors: the theorems instantiated on the hello with SNI + ALPN + two other extensions
+example : exHello.view.alpn = builtAlpn [.other 0xff01 [0], .sni [(0, [0x61, 0x2e, 0x62])], .alpn [[0x68, 0x32], [0x78]], .other 43 [2, 3, 4]] :=
+  alpn_of_built exHello _ rfl ((exHello_wf false).2.2.2.2.2.2.2.1 _ rfl)
+example (valid : Bytes → Bool) : exHello.view.sni valid =
+    builtSni valid [.other 0xff01 [0], .sni [(0, [0x61, 0x2e, 0x62])], .alpn [[0x68, 0x32], [0x78]], .other 43 [2, 3, 4]] :=
+  sni_of_built valid exHello _ rfl ((exHello_wf false).2.2.2.2.2.2.2.1 _ rfl)
+
+-- `sni_outright`: SNI "a.b" reported whatever the idna / ipaddress libraries answer
+example (lib : HostLib) : exHello.view.sni (validHost lib) = some [0x61, 0x2e, 0x62] :=
+  sni_outright lib exHello [.other 0xff01 [0]] [.alpn [[0x68, 0x32], [0x78]], .other 43 [2, 3, 4]] [[0x61], [0x62]] rfl
+    ((exHello_wf false).2.2.2.2.2.2.2.1 _ rfl)
+    (by intro x hx ns h; simp only [List.mem_singleton] at hx; subst hx; cases h)
+    (by simp) (by decide) (by decide) (by decide)
+
+-- `sni_lib_free` / `sni_full`: no `xn--` candidate, so no library answer matters
+example (I J : IdnaLib) : exHello.view.sni (validHostT I) = exHello.view.sni (validHostT J) :=
+  sni_lib_free I J _ (by decide)
+
+-- `validHost_too_long` / `validHost_non_ascii`
+example (lib : HostLib) : validHost lib (List.replicate 256 0x61) = false := validHost_too_long lib _ (by rw [List.length_replicate]; decide)
+example (lib : HostLib) : validHost lib [0x62, 0xfc] = false := validHost_non_ascii lib _ 0xfc (by simp) (by decide) (by decide)
+
 end MitmVerif.Props.C13
